@@ -1,8 +1,18 @@
 import GeoVerif.Corr.Proto
 import GeoVerif.Model.Polygon
-/-! Correspondence relation for C08: a whole edit history per line -/
+import GeoVerif.Model.PolygonF
+import GeoVerif.Model.Planimeter
+/-! Correspondence relation for C08: a whole edit history per line.
+
+The solver's answers reported on the line are turned into a `Backend` (a finite table, keyed by the bit patterns of
+the arguments); `Polygon.trace` (exact sums: the property-level comparison, with a round-off tolerance) and
+`PolygonF.trace` (bit level: a difference is drift, reported as a skipped line) are then *executed* on the operation
+list — the same definitions the theorems of `Props/C08.lean` are about. -/
 namespace GeoVerif.Corr.C08
 open GeoVerif GeoVerif.Proto GeoVerif.Polygon
+
+/-- a bit-level difference with no property-level difference is drift (skipped line), not a failing input -/
+def driftIsBad : Bool := false
 
 def pb (s : String) : Option Bool := if s == "1" then some true else if s == "0" then some false else none
 
@@ -10,12 +20,6 @@ def absR (x : Rat) : Rat := if x < 0 then -x else x
 
 /-- approximate value for messages -/
 def ratF (x : Rat) : Float := Float.ofInt x.num / Float.ofNat x.den
-
-structure Acc where
-  st : State
-  sumS : Rat := 0      -- Σ|S12| seen so far (scale for the area tolerance)
-  sumP : Rat := 0      -- Σ|s12|
-  bad : Option String := none
 
 /-- compare a reported double (or `-` = untouched / NaN token `nan`) with the model's rational -/
 def cmpVal (what : String) (tok : String) (model : Option Rat) (tol : Rat) (wrap : Rat := 0) : Option String :=
@@ -36,92 +40,235 @@ def rangeCheck (what tok : String) (A tol : Rat) : Option String :=
 
 def two53 : Rat := Rat.divInt 1 (2 ^ 50)   -- 8 · 2^-53
 
-def checkResult (acc : Acc) (A : Rat) (r : Result) (tok : String) (what : String) : Acc :=
+def checkResult (sumS sumP A : Rat) (r : Result) (tok : String) (what : String) : Option String :=
   match (tok.splitOn ":") with
   | ["r", n, p, a] =>
     let e1 := if n.toNat? == some r.num then none else some s!"{what}: num impl={n} model={r.num}"
-    let tolP := two53 * (acc.sumP + absR (r.perimeter.getD 0) + 1)
+    let tolP := two53 * (sumP + absR (r.perimeter.getD 0) + 1)
     let e2 := cmpVal (what ++ ".perimeter") p r.perimeter tolP
-    let tolA := two53 * (acc.sumS + A)
+    let tolA := two53 * (sumS + A)
     let e3 := match r.area with
       | none => if a == "-" then none else some s!"{what}: area written for a polyline"
       | some ma => if a == "-" then some s!"{what}: area not written" else (cmpVal (what ++ ".area") a ma tolA A <|> rangeCheck what a A tolA)
-    match acc.bad, e1 <|> e2 <|> e3 with
-    | none, some e => { acc with bad := some e }
-    | _, _ => acc
-  | _ => { acc with bad := acc.bad <|> some s!"{what}: malformed result token {tok}" }
+    e1 <|> e2 <|> e3
+  | _ => some s!"{what}: malformed result token {tok}"
 
-def ratOf (tok : String) : Option Rat := (parseF tok).bind fun v => if v.isFinite then some (toRat v) else none
+/-! ### the operation list and the solver table -/
 
-/-- walk the op tokens and the result tokens in parallel -/
-partial def walk (acc : Acc) (A : Rat) : List String → List String → Acc
-  | [], _ => acc
-  | op :: ops, res =>
-    if acc.bad.isSome then acc else
-    match op.splitOn ":", res with
-    | ["X"], "x" :: rs => walk { acc with st := clear acc.st, sumS := 0, sumP := 0 } A ops rs
-    | ["P", _, lon], k :: rs =>
-      (match parseF lon, k.splitOn ":" with
-       | some l, ["k", s12, S12] =>
-         (match ratOf s12, ratOf S12 with
-          | some s, some S => walk { acc with st := addPoint acc.st l s S, sumS := acc.sumS + absR S, sumP := acc.sumP + absR s } A ops rs
-          | _, _ => { acc with bad := some "skip:nonfinite kernel" })
-       | _, _ => { acc with bad := some "parse P" })
-    | ["E", _, s], k :: rs =>
-      (match ratOf s, k.splitOn ":" with
-       | some sv, ["k", _, lon2, S12] =>
-         (match parseF lon2, ratOf S12 with
-          | some l2, some S => walk { acc with st := addEdge acc.st sv l2 S, sumS := acc.sumS + absR S, sumP := acc.sumP + absR sv } A ops rs
-          | _, _ => { acc with bad := some "skip:nonfinite kernel" })
-       | _, _ => { acc with bad := some "parse E" })
-    | ["C", rv, sg], k :: r :: rs =>
-      (match pb rv, pb sg, k.splitOn ":" with
-       | some reverse, some sign, ["k", s12, S12] =>
-         (match ratOf s12, ratOf S12 with
-          | some s, some S =>
-            let acc' := { acc with sumS := acc.sumS + absR S, sumP := acc.sumP + absR s }
-            let acc'' := checkResult acc' A (compute acc.st A reverse sign s S) r "Compute"
-            walk { acc'' with sumS := acc.sumS, sumP := acc.sumP } A ops rs
-          | _, _ => { acc with bad := some "skip:nonfinite kernel" })
-       | _, _, _ => { acc with bad := some "parse C" })
-    | ["TP", _, lon, rv, sg], k :: r :: rs =>
-      (match parseF lon, pb rv, pb sg, k.splitOn ":" with
-       | some l, some reverse, some sign, ["k", s1, S1, s2, S2] =>
-         (match ratOf s1, ratOf S1, ratOf s2, ratOf S2 with
-          | some a, some b, some c, some d =>
-            let acc' := { acc with sumS := acc.sumS + absR b + absR d, sumP := acc.sumP + absR a + absR c }
-            let acc'' := checkResult acc' A (testPoint acc.st A l reverse sign (a, b) (c, d)) r "TestPoint"
-            walk { acc'' with sumS := acc.sumS, sumP := acc.sumP } A ops rs
-          | _, _, _, _ => { acc with bad := some "skip:nonfinite kernel" })
-       | _, _, _, _ => { acc with bad := some "parse TP" })
-    | ["TE", _, s, rv, sg], k :: r :: rs =>
-      (match ratOf s, pb rv, pb sg, k.splitOn ":" with
-       | some sv, some reverse, some sign, ["k", _, lon2, S12, s2, S2] =>
-         (match parseF lon2, ratOf S12, ratOf s2, ratOf S2 with
-          | some l2, some S, some c, some d =>
-            let acc' := { acc with sumS := acc.sumS + absR S + absR d, sumP := acc.sumP + absR sv + absR c }
-            let acc'' := checkResult acc' A (testEdge acc.st A sv l2 S reverse sign (c, d)) r "TestEdge"
-            walk { acc'' with sumS := acc.sumS, sumP := acc.sumP } A ops rs
-          | _, _, _, _ => { acc with bad := some "skip:nonfinite kernel" })
-       | _, _, _, _ => { acc with bad := some "parse TE" })
-    | _, _ => { acc with bad := some s!"malformed history at {op}" }
+def parseOp (tok : String) : Option Op :=
+  match tok.splitOn ":" with
+  | ["X"] => some .clear
+  | ["P", lat, lon] => do some (.addPoint (← parseF lat) (← parseF lon))
+  | ["E", azi, s] => do some (.addEdge (← parseF azi) (← parseF s))
+  | ["C", rv, sg] => do some (.compute (← pb rv) (← pb sg))
+  | ["TP", lat, lon, rv, sg] => do some (.testPoint (← parseF lat) (← parseF lon) (← pb rv) (← pb sg))
+  | ["TE", azi, s, rv, sg] => do some (.testEdge (← parseF azi) (← parseF s) (← pb rv) (← pb sg))
+  | _ => none
+
+abbrev Key := UInt64 × UInt64 × UInt64 × UInt64
+
+structure Tbl where
+  inv : List (Key × (F64 × F64)) := []
+  dir : List (Key × (F64 × F64 × F64)) := []
+  sumS : Rat := 0
+  sumP : Rat := 0
+  finite : Bool := true
+  malformed : Bool := false
+
+def key (a b c d : F64) : Key := (a.toBits, b.toBits, c.toBits, d.toBits)
+
+def mag (x : F64) : Rat := if x.isFinite then absR (toRat x) else 0
+
+def addTok (t : Tbl) (tok : String) : Tbl :=
+  match tok.splitOn ":" with
+  | ["k", a, b, c, d, s12, S12] =>
+    (match parseFs [a, b, c, d, s12, S12] with
+     | some [a, b, c, d, s, S] =>
+       { t with inv := (key a b c d, (s, S)) :: t.inv, sumS := t.sumS + mag S, sumP := t.sumP + mag s, finite := t.finite && s.isFinite && S.isFinite }
+     | _ => { t with malformed := true })
+  | ["d", a, b, c, d, lat2, lon2, S12] =>
+    (match parseFs [a, b, c, d, lat2, lon2, S12] with
+     | some [a, b, c, d, la, lo, S] =>
+       { t with dir := (key a b c d, (la, lo, S)) :: t.dir, sumS := t.sumS + mag S, sumP := t.sumP + mag d,
+                finite := t.finite && d.isFinite && la.isFinite && lo.isFinite && S.isFinite }
+     | _ => { t with malformed := true })
+  | _ => t
+
+/-- the solver as the implementation answered on this line (anything it was not asked: zeros) -/
+def tableBackend (t : Tbl) : Backend where
+  inverse a b c d := ((t.inv.find? fun e => e.1 == key a b c d).map (·.2)).getD (0, 0)
+  direct a b c d := ((t.dir.find? fun e => e.1 == key a b c d).map (·.2)).getD (0, 0, 0)
+
+/-! ### comparison of the two traces with what was reported -/
+
+def sameTok (tok : String) (x : F64) : Bool :=
+  match parseF tok with
+  | some v => F64.same v x
+  | none => false
+
+/-- the state token `s:num:lat1:lon1:lat0:lon0:crossings:as:at:ps:pt` against the exact-sum model (property level) -/
+def checkState (t : Tbl) (st : State) (tok : String) : Option String :=
+  match tok.splitOn ":" with
+  | ["s", n, la1, lo1, la0, lo0, cr, as, at', ps, pt] =>
+    if n.toNat? != some st.num then some s!"NumberPoints impl={n} model={st.num}"
+    else if !(sameTok la1 st.lat1 && sameTok lo1 st.lon1) then some s!"CurrentPoint impl=({la1},{lo1}) model=({showF st.lat1},{showF st.lon1})"
+    else if !(sameTok la0 st.lat0 && sameTok lo0 st.lon0) then some s!"first vertex impl=({la0},{lo0}) model=({showF st.lat0},{showF st.lon0})"
+    else match parseI cr, parseFs [as, at', ps, pt] with
+      | some c, some [a1, a2, p1, p2] =>
+        if (c - st.crossings) % 2 != 0 then some s!"crossing parity impl={c} model={st.crossings}"
+        else if !(a1.isFinite && a2.isFinite && p1.isFinite && p2.isFinite) then some "accumulators not finite"
+        else if absR (toRat a1 + toRat a2 - st.areasum) > two53 * t.sumS then
+          some s!"area accumulator holds {ratF (toRat a1 + toRat a2)}, the exact sum is {ratF st.areasum}"
+        else if absR (toRat p1 + toRat p2 - st.perimsum) > two53 * t.sumP then
+          some s!"perimeter accumulator holds {ratF (toRat p1 + toRat p2)}, the exact sum is {ratF st.perimsum}"
+        else none
+      | _, _ => some "parse state token"
+  | _ => some s!"malformed state token {tok}"
+
+/-- bit level: the state record -/
+def driftState (st : PolygonF.StateF) (tok : String) : Option String :=
+  match tok.splitOn ":" with
+  | ["s", _, _, _, _, _, cr, as, at', ps, pt] =>
+    if parseI cr != some st.crossings then some s!"_crossings impl={cr} model={st.crossings}"
+    else if !(sameTok as st.areasum.s && sameTok at' st.areasum.t) then some s!"_areasum impl=({as},{at'}) model=({showF st.areasum.s},{showF st.areasum.t})"
+    else if !(sameTok ps st.perimsum.s && sameTok pt st.perimsum.t) then some s!"_perimetersum impl=({ps},{pt}) model=({showF st.perimsum.s},{showF st.perimsum.t})"
+    else none
+  | _ => none
+
+def driftResult (r : PolygonF.ResultF) (tok : String) : Option String :=
+  match tok.splitOn ":" with
+  | ["r", _, p, a] =>
+    if !sameTok p r.perimeter then some s!"perimeter impl={p} model={showF r.perimeter}"
+    else match r.area with
+      | none => none
+      | some x => if a == "-" || sameTok a x then none else some s!"area impl={a} model={showF x}"
+  | _ => none
+
+def opName : Op → String
+  | .clear => "Clear" | .addPoint .. => "AddPoint" | .addEdge .. => "AddEdge"
+  | .compute .. => "Compute" | .testPoint .. => "TestPoint" | .testEdge .. => "TestEdge"
+
+/-- walk the two traces against the reported state / result tokens; returns (failing relation, drift) -/
+def compare (t : Tbl) (A : Rat) : Nat → List Op → List (State × Option Result) → List (PolygonF.StateF × Option PolygonF.ResultF) →
+    List String → List String → Option String × Option String
+  | _, [], _, _, _, _ => (none, none)
+  | i, op :: ops, (st, r) :: tr, (sf, rf) :: trF, stoks, rtoks =>
+    let what := s!"op {i} {opName op}"
+    -- the result of a query
+    let (e1, d1, rtoks') : Option String × Option String × List String :=
+      match r, rf, rtoks with
+      | some res, some resF, tok :: rest => (checkResult t.sumS t.sumP A res tok what, (driftResult resF tok).map (s!"{what}: " ++ ·), rest)
+      | some _, _, [] => (some s!"{what}: no result reported", none, [])
+      | _, _, rest => (none, none, rest)
+    match stoks with
+    | [] => (some s!"{what}: no state reported", none)
+    | stok :: stoks' =>
+      let e2 := (checkState t st stok).map (s!"after {what}: " ++ ·)
+      let d2 := (driftState sf stok).map (s!"after {what}: " ++ ·)
+      match e1 <|> e2 with
+      | some e => (some e, none)
+      | none =>
+        let (e, d) := compare t A (i + 1) ops tr trF stoks' rtoks'
+        (e, d1 <|> d2 <|> d)
+  | _, _, _, _, _, _ => (some "trace length", none)
+
+def finish (v : Option String × Option String) (pre : String) : Verdict :=
+  match v with
+  | (some e, _) => .bad s!"{pre}: {e}"
+  | (none, some d) => if driftIsBad then .bad s!"{pre} (bit level): {d}" else .skip s!"drift: {d}"
+  | (none, none) => .ok
+
+def handlePoly (args res : List String) : Verdict :=
+  match args, res with
+  | _backend :: _a :: _f :: pl :: optoks, a0 :: rs =>
+    (match pb pl, (a0.splitOn ":") with
+     | some polyline, ["A0", ah] =>
+       (match parseF ah, optoks.mapM parseOp with
+        | some AF, some ops =>
+          if !AF.isFinite then .bad "A0 not finite" else
+          let t := rs.foldl addTok {}
+          if t.malformed then .bad "malformed solver token" else
+          if !t.finite then .skip "skip:nonfinite kernel" else
+          let A := toRat AF
+          let B := tableBackend t
+          let stoks := rs.filter (·.startsWith "s:")
+          let rtoks := rs.filter (·.startsWith "r:")
+          (match stoks with
+           | s0 :: stoks' =>
+             let e0 := (checkState t (init polyline) s0).map ("after construction: " ++ ·)
+             (match e0 with
+              | some e => .bad s!"PolygonArea bookkeeping: {e}"
+              | none =>
+                finish (compare t A 1 ops (Polygon.trace B A (init polyline) ops) (PolygonF.trace B AF (PolygonF.init polyline) ops) stoks' rtoks)
+                  "PolygonArea bookkeeping")
+           | [] => .bad "no state token")
+        | _, _ => .bad "parse A0 / operations")
+     | _, _ => .bad "parse")
+  | _, _ => .bad "parse"
+
+/-- `areduce a f s t crossings | A0:… S12 (computeArea:testPointArea)×4`: the planted object of the harness -/
+def handleAreduce (args res : List String) : Verdict :=
+  match args, res with
+  | [_, _, s, t, cr], a0 :: s12 :: outs =>
+    (match parseFs [s, t, s12], parseI cr, a0.splitOn ":" with
+     | some [s, t, S12], some c, ["A0", ah] =>
+       (match parseF ah with
+        | some AF =>
+          if !(s.isFinite && t.isFinite && AF.isFinite) then .skip "skip:nonfinite" else
+          let A := toRat AF
+          let z : F64 := F64.ofInt 0
+          let stF : PolygonF.StateF := { num := 2, crossings := c, areasum := ⟨s, t⟩, lat0 := z, lon0 := z, lat1 := z, lon1 := z }
+          let st : State := { num := 2, crossings := c, areasum := toRat s + toRat t, lat0 := z, lon0 := z, lat1 := z, lon1 := z }
+          let flags := [(false, false), (false, true), (true, false), (true, true)]
+          let tol := two53 * (absR (toRat s) + A)
+          let go := (flags.zip outs).foldl (fun (acc : Option String × Option String) (fo : (Bool × Bool) × String) =>
+            let ((rv, sg), o) := fo
+            match o.splitOn ":" with
+            | [ca, ta] =>
+              let rc := compute st A rv sg 0 (toRat S12)
+              let rt := testPoint st A z rv sg (0, toRat S12) (0, toRat S12)
+              let what := s!"reverse={rv} sign={sg}"
+              let e := (match rc.area with
+                        | some m => cmpVal s!"AreaReduce(Accumulator) {what}" ca m tol A <|> rangeCheck what ca A tol
+                        | none => some "model") <|>
+                       (match rt.area with
+                        | some m => cmpVal s!"AreaReduce(real) {what}" ta m tol A <|> rangeCheck what ta A tol
+                        | none => some "model")
+              let rcF := PolygonF.compute stF AF rv sg z S12
+              let rtF := PolygonF.testPoint stF AF z rv sg (z, S12) (z, S12)
+              let d := (match rcF.area with
+                        | some x => if sameTok ca x then none else some s!"AreaReduce(Accumulator) {what}: impl={ca} model={showF x}"
+                        | none => none) <|>
+                       (match rtF.area with
+                        | some x => if sameTok ta x then none else some s!"AreaReduce(real) {what}: impl={ta} model={showF x}"
+                        | none => none)
+              (acc.1 <|> e, acc.2 <|> d)
+            | _ => (acc.1 <|> some "parse", acc.2)) (none, none)
+          if outs.length != 4 then .bad "parse" else finish go "AreaReduce"
+        | none => .bad "parse A0")
+     | _, _, _ => .bad "parse")
+  | _, _ => .bad "parse"
+
+/-- `planim variant s:input | polyline s:tags rc nlines n₁ n₂ …`: one result line per polygon with at least one vertex -/
+def handlePlanim (res : List String) : Verdict :=
+  match res with
+  | ["crash"] => .skip "tool crashed (reported by the harness)"
+  | "usage" :: _ => .ok
+  | _pl :: tags :: _rc :: nl :: nums =>
+    (match parseS tags, nl.toNat?, nums.mapM (·.toNat?) with
+     | some tg, some n, some ns =>
+       let expected := Planimeter.segments (tg.map fun b => b == 118) 0     -- 'v'
+       if n != ns.length then .bad s!"Planimeter: {n} lines, {ns.length} counts"
+       else if ns != expected then .bad s!"Planimeter: vertex counts printed {ns}, the input has polygons of {expected} vertices"
+       else .ok
+     | _, _, _ => .bad "parse")
+  | _ => .bad "parse"
 
 def handle (op : String) (args res : List String) : Option Verdict :=
   match op with
-  | "poly" => some <|
-    match args, res with
-    | _backend :: _a :: _f :: pl :: ops, a0 :: rs =>
-      (match pb pl, (a0.splitOn ":") with
-       | some polyline, ["A0", ah] =>
-         (match ratOf ah with
-          | some A =>
-            let acc := walk { st := init polyline } A ops rs
-            (match acc.bad with
-             | none => .ok
-             | some e => if e.startsWith "skip:" then .skip e else .bad s!"PolygonArea bookkeeping: {e}")
-          | none => .bad "parse A0")
-       | _, _ => .bad "parse")
-    | _, _ => .bad "parse"
+  | "poly" => some (handlePoly args res)
+  | "areduce" => some (handleAreduce args res)
+  | "planim" => some (handlePlanim res)
   | "transit" => some <|
     match parseFs args, res with
     | some [l1, l2], [t, td] =>
@@ -129,6 +276,7 @@ def handle (op : String) (args res : List String) : Option Verdict :=
       else .bad s!"transit/transitdirect: impl=({t},{td}) model=({transit l1 l2},{transitdirect l1 l2})"
     | _, _ => .bad "parse"
   | "polymeta" => some (.skip "metamorphic laws are judged by the harness on the implementation")
+  | "edgepoly" => some (.skip "AddEdge-built vs AddPoint-built polygons are judged by the harness on the implementation")
   | _ => none
 
 end GeoVerif.Corr.C08
